@@ -292,53 +292,26 @@ fn exec(case: &Value) -> Value {
 
 fn restrict_problem(rng: &mut Rng, sp: &mut SProblem) {
     let n = sp.n;
-    let depots: BTreeSet<usize> =
-        sp.vehicles.iter().flat_map(|v| v.shifts.iter()).flat_map(|s| std::iter::once(s.start_loc).chain(s.reloads.iter().map(|r| r.loc))).collect();
     for j in sp.jobs.iter_mut() {
         for t in j.tasks.iter_mut() {
-            // alternative places of one task at the same location are told apart by the checker's matcher through the
-            // first tag only (open deviation D2): keep them at different locations in the main stream
-            if t.places.len() == 2 && t.places[0].loc == t.places[1].loc {
-                let free: Vec<usize> = (0..n).filter(|l| *l != t.places[0].loc && !depots.contains(l)).collect();
+            // two places of one task with the same location AND the same tag (or both untagged) cannot be told apart in a
+            // solution by anybody: keep such places at different locations
+            if t.places.len() == 2 && t.places[0].loc == t.places[1].loc && t.places[0].tag == t.places[1].tag {
+                let free: Vec<usize> = (0..n).filter(|l| *l != t.places[0].loc).collect();
                 if free.is_empty() {
                     t.places.truncate(1);
                 } else {
                     t.places[1].loc = *rng.pick(&free);
                 }
             }
-            // a service that spans two windows is matched to the later window (open deviation D4): keep gaps large
-            for p in t.places.iter_mut() {
-                for k in 1..p.tws.len() {
-                    let min_start = p.tws[k - 1].1 + 120;
-                    if p.tws[k].0 < min_start {
-                        let len = p.tws[k].1 - p.tws[k].0;
-                        p.tws[k] = (min_start, min_start + len);
-                    }
-                }
-            }
         }
     }
-    for v in sp.vehicles.iter_mut() {
-        // `get_vehicle_shift` takes the first shift whose time range meets the tour, whatever `shiftIndex` says: an
-        // open-ended earlier shift swallows the tours of later shifts (open deviation D7)
-        let n_shifts = v.shifts.len();
-        for (k, s) in v.shifts.iter_mut().enumerate() {
-            if k + 1 < n_shifts && s.end.is_none() {
-                s.end = Some(SShiftEnd { earliest: None, latest: s.start_earliest + 2300, loc: s.start_loc });
-            }
-        }
-        for s in v.shifts.iter_mut() {
-            // reloads of one shift that share location and tag but differ in duration are not told apart (open deviation D3)
-            let tagged = s.reloads.iter().all(|r| r.tag.is_some());
-            let d0 = s.reloads.first().map(|r| r.dur).unwrap_or(0);
-            for (k, r) in s.reloads.iter_mut().enumerate() {
-                if tagged {
-                    r.tag = Some(format!("rl{k}"));
-                } else {
-                    r.tag = None;
-                    r.dur = d0;
-                }
-            }
+    // more places at the depot than pragen makes: a job served at the departure / reload stop is a path of its own
+    if rng.chance(1, 4) && !sp.jobs.is_empty() {
+        let depot = sp.vehicles[0].shifts[0].start_loc;
+        let k = rng.usize(0, sp.jobs.len() - 1);
+        if sp.jobs[k].tasks.len() == 1 && sp.jobs[k].tasks[0].places.len() == 1 {
+            sp.jobs[k].tasks[0].places[0].loc = depot;
         }
     }
 }
@@ -399,68 +372,14 @@ fn vehicle_type_index(sp: &SProblem, vid: &str) -> Option<usize> {
     sp.vehicles.iter().position(|v| v.ids.iter().any(|x| x == vid))
 }
 
-/// input shapes on which the unchanged checker is known to be wrong (open deviations; carried in the corpus instead)
-fn hits_open_deviation(sp: &SProblem, sol: &Value) -> Option<&'static str> {
+/// input shapes on which the checker is known to be wrong (open deviations; carried in the corpus instead)
+fn hits_open_deviation(_sp: &SProblem, sol: &Value) -> Option<&'static str> {
     for t in sol["tours"].as_array().unwrap() {
-        let stops = t["stops"].as_array().unwrap();
-        for (si, s) in stops.iter().enumerate() {
-            let acts = acts_of(s);
-            // D5: a break merged into the departure stop moves the stop's departure, which the checker takes as tour start
-            if si == 0 && acts.iter().any(|a| a["type"] == "break") {
-                return Some("break_in_departure_stop");
-            }
-            // D6: a job served at the first stop of a load interval (departure / reload stop) is a "load mismatch"
-            let starts_interval = si == 0 || acts.first().map(|a| a["type"] == "reload").unwrap_or(false);
-            if starts_interval && acts.iter().any(|a| is_job_type(a["type"].as_str().unwrap())) {
-                return Some("job_at_interval_start");
-            }
+        for (si, s) in t["stops"].as_array().unwrap().iter().enumerate() {
             // D9: only the FIRST activity of a stop makes it a reload stop
-            if acts.iter().skip(1).any(|a| a["type"] == "reload") {
+            let skip = if si == 0 { 0 } else { 1 };
+            if acts_of(s).iter().skip(skip).any(|a| a["type"] == "reload") {
                 return Some("reload_not_first_in_stop");
-            }
-            // D1a: a break strictly inside a stop is counted twice by `check_break_assignment`
-            for (k, a) in acts.iter().enumerate() {
-                if a["type"] == "break" && k > 0 && k + 1 < acts.len() {
-                    return Some("break_inside_stop");
-                }
-            }
-        }
-        // D1b: `skip-if-no-intersection` is decided by `break.start < arrival`, ignoring the departure
-        let vid = t["vehicleId"].as_str().unwrap();
-        let shift_index = t["shiftIndex"].as_u64().unwrap() as usize;
-        if let Some(vt) = vehicle_type_index(sp, vid) {
-            if let Some(shift) = sp.vehicles[vt].shifts.get(shift_index) {
-                let dep = stops.first().unwrap()["departure"].as_i64().unwrap();
-                let arr = stops.last().unwrap()["arrival"].as_i64().unwrap();
-                let actual = stops.iter().flat_map(|s| acts_of(s).iter()).filter(|a| a["type"] == "break").count()
-                    + sol["violations"].as_array().map(|v| v.iter().filter(|x| x["vehicle_id"] == t["vehicleId"] && x["shift_index"] == t["shiftIndex"]).count()).unwrap_or(0);
-                let mut required = 0;
-                for b in shift.breaks.iter() {
-                    let (s0, e0) = if b.offset { (dep + b.time.0, dep + b.time.1) } else { b.time };
-                    required += match b.policy.as_deref() {
-                        Some("skip-if-arrival-before-end") => (arr > e0) as usize,
-                        _ => (s0 <= arr && dep <= e0) as usize,
-                    };
-                }
-                // D8: a break that the policy would allow to skip but that was served anyway is "amount of breaks does not match"
-                // D10: for an open tour the checker takes the arrival of the last STOP, the solver that of the last activity
-                if actual != required {
-                    return Some("break_count_differs_from_policy");
-                }
-                for b in shift.breaks.iter() {
-                    let (s0, e0) = if b.offset { (dep + b.time.0, dep + b.time.1) } else { b.time };
-                    let by_doc = match b.policy.as_deref() {
-                        Some("skip-if-arrival-before-end") => arr > e0,
-                        _ => s0 <= arr && dep <= e0,
-                    };
-                    let by_checker = match b.policy.as_deref() {
-                        Some("skip-if-arrival-before-end") => arr > e0,
-                        _ => s0 < arr,
-                    };
-                    if by_doc != by_checker {
-                        return Some("break_policy_ignores_departure");
-                    }
-                }
             }
         }
     }
@@ -494,16 +413,17 @@ fn derive_relations(rng: &mut Rng, sp: &SProblem, sol: &Value) -> Vec<SRelation>
         let count_in = |xs: &[String], id: &str| xs.iter().filter(|x| x.as_str() == id).count();
         match rng.below(3) {
             0 => {
-                // any: a subset of customer jobs, each listed once per task; reserved ids would also match other tours
+                // any: a subset of ids, each customer job listed once per task, reserved ids by occurrence
                 let mut set: Vec<String> = vec![];
                 for id in ids.iter() {
-                    if !is_reserved(id) && !set.contains(id) && rng.chance(1, 2) {
+                    if !set.contains(id) && rng.chance(1, 2) {
                         set.push(id.clone());
                     }
                 }
                 let mut jobs = vec![];
                 for id in set.iter() {
-                    for _ in 0..task_count(sp, id).unwrap_or(1) {
+                    let k = if is_reserved(id) { rng.usize(1, count_in(&ids, id)) } else { task_count(sp, id).unwrap_or(1) };
+                    for _ in 0..k {
                         jobs.push(id.clone());
                     }
                 }
@@ -513,29 +433,30 @@ fn derive_relations(rng: &mut Rng, sp: &SProblem, sol: &Value) -> Vec<SRelation>
                 }
             }
             1 => {
-                // sequence: the tour's ids filtered by a chosen id set; a reserved id only when the tour has it once (S29)
+                // sequence: a subsequence of the tour's ids that holds every activity of each chosen customer job;
+                // reserved ids (reload, break, departure, arrival) as often as wanted (S29)
                 let mut set: Vec<String> = vec![];
                 for id in ids.iter() {
-                    let once = count_in(&ids, id) == 1;
                     let full = is_reserved(id) || task_count(sp, id) == Some(count_in(&ids, id));
-                    if !set.contains(id) && (!is_reserved(id) || once) && full && rng.chance(1, 2) {
+                    if !set.contains(id) && full && rng.chance(1, 2) {
                         set.push(id.clone());
                     }
                 }
-                let jobs: Vec<String> = ids.iter().filter(|id| set.contains(id)).cloned().collect();
+                let jobs: Vec<String> =
+                    ids.iter().filter(|id| set.contains(id) && (!is_reserved(id) || rng.chance(2, 3))).cloned().collect();
                 if !jobs.is_empty() {
                     rels.push(SRelation { kind: "sequence".into(), jobs, vehicle_id: vid, shift_index: shift });
                 }
             }
             _ => {
-                // strict: a contiguous run in which every job has all of its activities and no reserved id twice
+                // strict: a contiguous run in which every customer job has all of its activities
                 let a = rng.usize(0, ids.len() - 1);
-                let b = rng.usize(a, (a + 4).min(ids.len() - 1));
+                let b = rng.usize(a, (a + 5).min(ids.len() - 1));
                 let run = &ids[a..=b];
-                let ok = run.iter().all(|id| {
-                    if is_reserved(id) { count_in(run, id) == 1 } else { task_count(sp, id) == Some(count_in(run, id)) }
-                });
-                if ok {
+                let ok = run.iter().all(|id| is_reserved(id) || task_count(sp, id) == Some(count_in(run, id)));
+                // `intersection` starts at the FIRST occurrence of the run's head in the tour
+                let head_first = ids.iter().position(|x| *x == run[0]) == Some(a);
+                if ok && head_first {
                     rels.push(SRelation { kind: "strict".into(), jobs: run.to_vec(), vehicle_id: vid, shift_index: shift });
                 }
             }
